@@ -1,5 +1,6 @@
 import Invoke.Lemmas.RunnerStdin
 import Invoke.Lemmas.RunnerReuse
+import Invoke.Lemmas.Encode
 /-! # C13 — input-stream text reaches the command complete, in order, then EOF
 
 Stated over EVERY schedule (`Inv.run` over arbitrary lists of thread steps and environment
@@ -116,6 +117,64 @@ example :
     let s := run (S.init true false false false false [] [] [.data [104], .data [105], .notReady, .data [33], .eof] false false 1000)
       (List.replicate 14 (.act .stdin) ++ [.env (.exit 0), .act .main, .act .main, .act .main, .act .stdin, .act .stdin])
     s.fwd = [[104], [105], [33]] ∧ s.closeCount = 1 ∧ s.inPc = .done := by decide
+
+/-! ## the encoding step (`write_proc_stdin`) -/
+
+/-- ENCODING: forwarding the input piece by piece through ONE incremental encoder yields the encoding of the whole
+    text, for every encoder (stateful or not) and every way the text was cut into pieces -/
+theorem encode_incremental_eq_whole (E : Encoder) (pieces : List (List Nat)) :
+    E.encodeIncremental pieces = E.encodeWhole pieces.flatten := by
+  unfold Encoder.encodeIncremental Encoder.encodeWhole
+  rw [Encoder.runPieces_flatten]
+
+/-- HEADLINE (composition with `exhausted_input_fully_forwarded`): once the input stream is exhausted and nothing is
+    pending, the bytes the command has received are the encoding, in the effective encoding, of exactly the input
+    text - on every schedule, from every initial configuration, for every encoder -/
+theorem command_receives_encoding_of_input (E : Encoder) (hi ht w p e : Bool) (o er : List Chunk) (ins : List InItem)
+    (ho sf : Bool) (n : Nat) (asy : Bool) (evs : List Ev) :
+    let s := run (S.init hi ht w p e o er ins ho sf n asy) evs
+    s.inScript = [] → s.inPending = [] → E.encodeIncremental s.fwd = E.encodeWhole (dataOf ins).flatten := by
+  intro s h1 h2
+  rw [encode_incremental_eq_whole, exhausted_input_fully_forwarded hi ht w p e o er ins ho sf n asy evs h1 h2]
+
+/-- encoding every piece on its own is the same thing only for encoders without state ... -/
+theorem stateless_per_piece_eq_whole (E : Encoder) (h : E.Stateless) (pieces : List (List Nat)) :
+    E.encodePerPiece pieces = E.encodeWhole pieces.flatten := by
+  unfold Encoder.encodePerPiece Encoder.encodeWhole
+  induction pieces with
+  | nil => simp [Encoder.run]
+  | cons p ps ih =>
+    simp only [List.map_cons, List.flatten_cons]
+    rw [Encoder.run_append, ih, Encoder.stateless_run E h (E.run E.init p).1]
+
+theorem utf8_stateless : utf8enc.Stateless := fun _ _ => rfl
+theorem latin1_stateless : latin1enc.Stateless := fun _ _ => rfl
+
+/-- ... and NOT for encoders with a start-of-stream marker: `utf-16` text "ab" forwarded as two pieces, each encoded
+    on its own, carries a second byte-order mark (the defect `C13-bom-per-piece`, repaired) -/
+theorem per_piece_repeats_marker_counterexample :
+    utf16enc.encodePerPiece [[97], [98]] = [0xFF, 0xFE, 97, 0, 0xFF, 0xFE, 98, 0] ∧
+    utf16enc.encodeIncremental [[97], [98]] = [0xFF, 0xFE, 97, 0, 98, 0] ∧
+    utf8sigenc.encodePerPiece [[97], [98]] ≠ utf8sigenc.encodeWhole [97, 98] := by decide
+
+/-- a marker encoder writes its marker exactly once per stream: before the first code point and never again -/
+theorem utf16_marker_once (c : Nat) (cs : List Nat) :
+    utf16enc.encodeWhole (c :: cs) = [0xFF, 0xFE] ++ (c :: cs).flatMap u16bytes := by
+  unfold Encoder.encodeWhole
+  have h : ∀ cs : List Nat, (utf16enc.run true cs).2 = cs.flatMap u16bytes := by
+    intro cs
+    induction cs with
+    | nil => rfl
+    | cons d ds ih =>
+      simp only [Encoder.run, List.flatMap_cons]
+      show ([] ++ u16bytes d) ++ (utf16enc.run true ds).2 = _
+      rw [ih]; simp
+  simp only [Encoder.run, List.flatMap_cons]
+  show ([0xFF, 0xFE] ++ u16bytes c) ++ (utf16enc.run true cs).2 = _
+  rw [h]; simp
+
+example : utf16enc.encodeWhole [0x61, 0xF1, 0x1F600] = [0xFF, 0xFE, 0x61, 0, 0xF1, 0, 0x3D, 0xD8, 0x00, 0xDE] := by decide
+example : utf8enc.encodeWhole [0x61, 0xF1, 0x20AC, 0x1F600] = [0x61, 0xC3, 0xB1, 0xE2, 0x82, 0xAC, 0xF0, 0x9F, 0x98, 0x80] := by decide
 
 /-! ## runs on one runner object -/
 
